@@ -350,6 +350,37 @@ pub fn run(cfg: &Cfg) -> Report {
                 bad.push(format!("individuals with float totals {x} / {y}: partial_cmp = {:?}, the totals give {want:?}", a.partial_cmp(&b)));
             }
         } }
+        // every comparison operator of the float-valued wrappers agrees with `partial_cmp` (also `<=` / `>=` on incomparable
+        // values - operators a type may override one by one), scores in the direction of the values, errors reversed
+        {
+            fn agree<X: PartialOrd>(what: &str, a: &X, b: &X, want: Option<Ordering>, xs: (f64, f64), bad: &mut Vec<String>) {
+                let pc = a.partial_cmp(b);
+                let ok = pc == want && (a < b) == (pc == Some(Ordering::Less)) && (a > b) == (pc == Some(Ordering::Greater))
+                    && (a <= b) == matches!(pc, Some(Ordering::Less | Ordering::Equal)) && (a >= b) == matches!(pc, Some(Ordering::Greater | Ordering::Equal))
+                    && (a == b) == (pc == Some(Ordering::Equal)) && (a != b) == !(a == b)
+                    && a.lt(b) == (a < b) && a.le(b) == (a <= b) && a.gt(b) == (a > b) && a.ge(b) == (a >= b);
+                if !ok { bad.push(format!("{what} of {} / {}: partial_cmp = {pc:?} (the values give {want:?}), < {} <= {} > {} >= {} == {} != {}: the operators do not agree", xs.0, xs.1, a < b, a <= b, a > b, a >= b, a == b, a != b)); }
+            }
+            let fl2 = [f64::NAN, -f64::NAN, f64::NEG_INFINITY, -1.0, -0.0, 0.0, f64::MIN_POSITIVE, 2.5, f64::MAX, f64::INFINITY];
+            for &x in &fl2 { for &y in &fl2 {
+                let (up, down) = (x.partial_cmp(&y), y.partial_cmp(&x));
+                agree("Score<f64>", &Score(x), &Score(y), up, (x, y), &mut bad);
+                agree("Error<f64>", &Error(x), &Error(y), down, (x, y), &mut bad);
+                agree("Score<f32>", &Score(x as f32), &Score(y as f32), (x as f32).partial_cmp(&(y as f32)), (x, y), &mut bad);
+                agree("Error<f32>", &Error(x as f32), &Error(y as f32), (y as f32).partial_cmp(&(x as f32)), (x, y), &mut bad);
+                type TF = TestResult<f64, f64>;
+                agree::<TF>("TestResult::Score<f64>", &TestResult::Score(Score(x)), &TestResult::Score(Score(y)), up, (x, y), &mut bad);
+                agree::<TF>("TestResult::Error<f64>", &TestResult::Error(Error(x)), &TestResult::Error(Error(y)), down, (x, y), &mut bad);
+                agree::<TF>("TestResult score / error <f64>", &TestResult::Score(Score(x)), &TestResult::Error(Error(y)), None, (x, y), &mut bad);
+                agree::<TF>("TestResult error / score <f64>", &TestResult::Error(Error(x)), &TestResult::Score(Score(y)), None, (x, y), &mut bad);
+                let (sa, sb): (TestResults<Score<f64>>, TestResults<Score<f64>>) = (vec![x].into(), vec![y].into());
+                let (ea, eb): (TestResults<Error<f64>>, TestResults<Error<f64>>) = (vec![x].into(), vec![y].into());
+                agree("TestResults<Score<f64>> (one result)", &sa, &sb, up, (x, y), &mut bad);
+                agree("TestResults<Error<f64>> (one result)", &ea, &eb, down, (x, y), &mut bad);
+                agree("individuals with TestResults<Error<f64>>", &EcIndividual::new(1u8, ea.clone()), &EcIndividual::new(1u8, eb.clone()), down, (x, y), &mut bad);
+                agree("individuals with TestResult<f64, f64> score / error", &EcIndividual::new(1u8, TF::Score(Score(x))), &EcIndividual::new(1u8, TF::Error(Error(y))), None, (x, y), &mut bad);
+            } }
+        }
         // incomparable totals stay incomparable whatever the per-case results look like (no falling back on them)
         for (ra, rb) in [(vec![1.0, f64::NAN], vec![2.0, f64::NAN]), (vec![3.0, f64::INFINITY, f64::NEG_INFINITY], vec![5.0, 1.0]), (vec![f64::NAN], vec![f64::NAN, 1.0]),
                          (vec![1.0, f64::NAN], vec![1.0, f64::NAN, 7.0]), (vec![0.0, f64::NAN], vec![9.0])] {
